@@ -1,11 +1,13 @@
 #!/bin/sh
-# usage: tools/eval_seeds.sh <ID>...   evaluates /tmp/seed_<ID>/change{1,2} with the property's quick check
+# usage: tools/eval_seeds.sh <round> <ID>...   evaluates the round's seed directories of each ID with the
+# property's quick check (round 1: /tmp/seed_<ID>/changeN, round 2: /tmp/s2_<ID>/changeN)
 cd /verif
+ROUND="$1"; shift
 for ID in "$@"; do
-  for N in 1 2; do
-    D=/tmp/seed_$ID/change$N
+  for N in 1 2 3; do
+    if [ "$ROUND" = 2 ]; then D=/tmp/s2_$ID/change$N; else D=/tmp/seed_$ID/change$N; fi
     [ -f $D/patch.diff ] || continue
     LINE="$(tools/try_patch.sh $D/patch.diff $ID 2>&1 | tail -1)"
-    echo "$ID/change$N :: $LINE" | cut -c1-420
+    printf '%s\n' "$ID/change$N :: $LINE" | cut -c1-420
   done
 done
